@@ -442,6 +442,10 @@ def judge(cases, impl, model, replay=False):
             findings.append(core.Finding("disagreement", {"family": "flags", "op": "driver", "id": cid},
                                          "model driver output does not match the number of steps", slim(c)))
             continue
+        if not str(impl.get(cid + ".u")).startswith("true"):
+            findings.append(core.Finding("violation", {"family": "flags", "op": "setup", "impl": kind(str(impl.get(cid + ".u")))},
+                                         "use_module(library(charsio)) did not succeed at the start of the history (twice)", slim(c)))
+            continue
         if norm_impl(("R",), str(impl.get(cid + ".r0")), cid) != "true":
             ok = False
             findings.append(core.Finding("violation", {"family": "flags", "op": "reset", "impl": kind(str(impl.get(cid + ".r0")))},
@@ -475,6 +479,9 @@ def judge(cases, impl, model, replay=False):
             qi, iv = bad
             sig = step_sig(s, iv, mv)
             pin = norm_model(s, pn[n]) if n < len(pn) else "?"
+            # does the clause model of the pinned commit give the implementation's answer? (yes for the
+            # deviations documented in notes/findings/C44-*.md; no for anything new)
+            sig["pinned_clauses_predict_impl"] = "yes" if pin == iv else "no"
             detail = ("step %d of the history: implementation answers %s, the proved model (ISO 8.17 table, corrected clauses) answers %s; "
                       "the clause model of the pinned commit %s the implementation (%s)"
                       % (n, iv, mv, "predicts" if pin == iv else "does NOT predict", pin))
@@ -489,6 +496,17 @@ def judge(cases, impl, model, replay=False):
         if ok:
             agree += 1
     return findings, agree, cov
+
+
+def infra_failed(c, impl):
+    ids = [c["id"] + ".u", c["id"] + ".r0", c["id"] + ".r1"] + [q for qs in c["qids"] for q in qs]
+    if not str(impl.get(c["id"] + ".u")).startswith("true"):
+        return True
+    for i in ids:
+        r = impl.get(i)
+        if r is None or r.startswith(("panic(", "timeout", "abort(", "skipped(")):
+            return True
+    return False
 
 
 def slim(c):
@@ -521,8 +539,20 @@ def run(ctx):
         n = 1500 if tier == "quick" else 40000
         hists += [(rand_history(rng), "random") for _ in range(n)]
     cases = [make_case("c%d" % i, h, note) for i, (h, note) in enumerate(hists)]
-    impl, model = diff.run_cases(cases)
+    # flag queries never run long: the watchdog is only there for a hang introduced by a change, and
+    # must not fire because the machine is busy (an interrupt during library loading can panic)
+    env = {"SV_TIMEOUT_MS": "120000"}
+    impl, model = diff.run_cases(cases, impl_env=env)
+    # infrastructure failures (a worker died, a library did not load, a watchdog interrupt): run the
+    # affected histories again, one after the other on one fresh process, before judging them
+    again = [c for c in cases if infra_failed(c, impl)]
+    retried = len(again)
+    if again:
+        impl2 = core.run_impl(["R\t%s.R" % again[0]["id"]] + [l for c in again for l in c["impl"]], env=env)
+        impl.update(impl2)
     findings, agree, cov = judge(cases, impl, model, replay=rep is not None)
+    # deviations that the clause model of the pinned commit does not predict are reported first
+    findings.sort(key=lambda f: 0 if f.sig.get("pinned_clauses_predict_impl") == "no" else 1)
     distinct = set()
     lens = {}
     for c in cases:
@@ -538,6 +568,7 @@ def run(ctx):
         "traces_validated_against_impl": agree,
         "disagreements_checked": len(cases) - agree,
         "steps_compared": cov["steps"],
+        "histories_rerun_after_infrastructure_failure": retried,
         "writes_by_flag_and_value_class": cov["set"],
         "error_kinds_hit": cov["err_kinds"],
         "probe_outcomes_hit": cov["probes"],
